@@ -34,6 +34,62 @@ from .c09 import AUTH_IN, AUTH_OUT, _pseudo_fn, auth_env, cred_params
 from .common import mpm_class, own_method, usm_class
 
 
+def timing_by_evaluation(ctx: Ctx, rep: Report, usm, gen: FuncInfo, st: FuncInfo, ae: FuncInfo, aa: FuncInfo):
+    """
+    The timing cache as a pair of small functions: `set_engine_timing(E, boots, time)` followed by
+    `generate_request_message(msg, E, credentials)` must hand the encryption step E, the latest boots / time stored
+    for E (not those of another engine) and the credentials' user name.  Evaluated with the encryption and
+    authentication steps modelled as "record the arguments"; None when the evaluator cannot follow the code.
+    """
+    from ..engine.minieval import Instance, MiniEval, Raised, Sym, Unevaluable
+
+    v3 = ctx.u.cls("puresnmp.credentials:V3")
+    results = []
+    roles: Dict[str, Optional[str]] = {}
+    try:
+        for engine, want in ((b"engine-one", (8, 2000)), (b"engine-two", (9, 99))):
+            recorded: List[Any] = []
+
+            def enc_model(args, kwargs, recorded=recorded):
+                recorded.append((list(args), dict(kwargs)))
+                return Sym("encrypted-message")
+
+            ev = MiniEval(ctx, externals={ae.key: enc_model, aa.key: (lambda args, kwargs: Sym("authenticated-message"))}, max_steps=20000)
+            me = Instance(usm, [], {})
+            ev.call_function(st, [me, b"engine-one", 7, 1234], {})
+            ev.call_function(st, [me, b"engine-two", 9, 99], {})
+            ev.call_function(st, [me, b"engine-one", 8, 2000], {})  # refreshed: the latest values count
+            creds = Instance(v3, [], {})
+            creds.attrs.update(username="operator", auth=None, priv=None)
+            message = Sym("plain-message")
+            ev.call_function(gen, [me, message, engine, creds], {})
+            if len(recorded) != 1:
+                results.append((False, f"{engine!r}: the encryption step was reached {len(recorded)} time(s)"))
+                continue
+            args, kwargs = recorded[0]
+            bound = dict(zip(ae.params, args))
+            bound.update(kwargs)
+            found = {
+                "engine_id": next((p for p, v in bound.items() if isinstance(v, bytes) and v == engine), None),
+                "boots": next((p for p, v in bound.items() if isinstance(v, int) and not isinstance(v, bool) and v == want[0]), None),
+                "time": next((p for p, v in bound.items() if isinstance(v, int) and not isinstance(v, bool) and v == want[1]), None),
+                "user": next((p for p, v in bound.items() if isinstance(v, bytes) and v == b"operator"), None),
+                "credentials": next((p for p, v in bound.items() if v is creds), None),
+            }
+            okc = all(v is not None for v in found.values()) and len(set(found.values())) == len(found)
+            roles = roles or found
+            okc = okc and found == roles
+            results.append((okc, f"{engine!r}: encryption step given {[(p, v) for p, v in bound.items() if p != found.get('credentials')]}"[:260]))
+    except Unevaluable as exc:
+        rep.info(f"the USM timing cache is not followed by the evaluator ({exc}); reading its structure instead")
+        return None
+    except Raised as exc:
+        return False, False, roles, f"raises {exc.value!r}"
+    ok = all(r[0] for r in results)
+    detail = "; ".join(r[1] for r in results if not r[0]) or "; ".join(r[1] for r in results)[:200]
+    return ok, ok, roles, detail
+
+
 def run(ctx: Ctx, rep: Report) -> None:
     rep.rule("C10-R1", "msgFlags: reportable for exactly the confirmed-class PDUs; auth / priv mirror the credentials", floor=5)
     rep.rule("C10-R2", "security parameters carry the discovered engine id, boots, time and the user name in RFC order", floor=3)
@@ -124,16 +180,24 @@ def run(ctx: Ctx, rep: Report) -> None:
     got = {k: norm(gdefs.expand(v)) for k, v in eb.items()}
     # which parameter of the encryption step plays which role is read off this call site (names are free to change)
     roles = {role: next((p for p, txt in got.items() if txt == src), None) for role, src in want_src.items()}
-    ok = all(v is not None for v in roles.values()) and len(set(roles.values())) == len(roles)
-    rep.check(ok, "C10-R2", gen.site(ae_call), "engine id <- the discovered engine, boots / time <- that engine's timing cache, user <- credentials.username", f"{got}", key=f"{gen.key}|parameter-provenance")
-    # the timing cache is written by set_engine_timing under the same keys
     st = own_method(ctx, usm, "set_engine_timing")
+    evaluated = timing_by_evaluation(ctx, rep, usm, gen, st, ae, aa)
+    if evaluated is not None:
+        ok_req, ok_store, roles_ev, detail = evaluated
+        roles = roles_ev if ok_req else roles
+        rep.check(ok_req, "C10-R2", gen.site(ae_call), "engine id <- the discovered engine, boots / time <- that engine's timing cache, user <- credentials.username (evaluated: two engines cached, one of them refreshed, a request built for each)", detail, key=f"{gen.key}|parameter-provenance")
+        rep.check(ok_store, "C10-R2", st.site(), "set_engine_timing stores boots and time under the engine id, under the keys the request path reads (evaluated: the latest values of that engine, and only of that engine, reach the request)", detail, key=f"{st.key}|timing-cache")
+    ok = all(v is not None for v in roles.values()) and len(set(roles.values())) == len(roles)
+    if evaluated is None:
+        rep.check(ok, "C10-R2", gen.site(ae_call), "engine id <- the discovered engine, boots / time <- that engine's timing cache, user <- credentials.username", f"{got}", key=f"{gen.key}|parameter-provenance")
+    # the timing cache is written by set_engine_timing under the same keys
     stores = {}
     for n in own_nodes(st.node):
         if isinstance(n, ast.Assign) and isinstance(n.targets[0], ast.Subscript) and isinstance(n.targets[0].slice, ast.Constant):
             stores[n.targets[0].slice.value] = norm(n.value)
     keyed = any(isinstance(n, ast.Call) and isinstance(n.func, ast.Attribute) and n.func.attr == "setdefault" and n.args and norm(n.args[0]) == st.params[1] for n in own_nodes(st.node))
-    rep.check(stores == {"authoritative_engine_boots": st.params[2], "authoritative_engine_time": st.params[3]} and keyed, "C10-R2", st.site(), "set_engine_timing stores boots and time under the engine id, under the keys the request path reads", f"{stores}", key=f"{st.key}|timing-cache")
+    if evaluated is None:
+        rep.check(stores == {"authoritative_engine_boots": st.params[2], "authoritative_engine_time": st.params[3]} and keyed, "C10-R2", st.site(), "set_engine_timing stores boots and time under the engine id, under the keys the request path reads", f"{stores}", key=f"{st.key}|timing-cache")
     # encode feeds the cache from discovery and uses the discovered engine id
     tcalls = [n for n in own_nodes(enc.node) if isinstance(n, ast.Call) and isinstance(n.func, ast.Attribute) and n.func.attr == "set_engine_timing"]
     ok = False
